@@ -188,6 +188,15 @@ func (w *World) endSession(s *Sess, cause string) {
 			takenOver = true
 		}
 	}
+	if s.Will != nil && cause == "nodefail" && s.Displaced && !takenOver {
+		// a displaced session (its record went when it was taken over) that outlived its
+		// displacer and then loses its node: the survivors publish wills from the records of the
+		// failed peer and have none for it, whereas its own node would have published the will
+		// at teardown. Displacement is not among the causes for which C13 promises a will;
+		// neither outcome is judged, and deliveries are not judged from here on.
+		w.Ambiguous = true
+		return
+	}
 	if s.Will != nil && cause != "disconnect" && cause != "displaced" && !takenOver {
 		w.modelPublish(w.mp(s), s.Will.Topic, s.Will.Payload, s.Will.Retain, s.Node)
 	}
